@@ -287,6 +287,12 @@ func recoverTable(s *session, o *opt.Options) error {
 	o = dupOptions(o)
 	// Mask StrictReader, lets StrictRecovery doing its job.
 	o.Strict &= ^opt.StrictReader
+	// Tables hold internal keys: the table reader and the writer of a rebuilt
+	// table need the session's internal-key comparer and filter wrappers, not
+	// the caller's user comparer and filters.
+	o.Comparer = s.o.GetComparer()
+	o.Filter = s.o.GetFilter()
+	o.AltFilters = s.o.GetAltFilters()
 
 	// Get all tables and sort it by file number.
 	fds, err := s.stor.List(storage.TypeTable)
